@@ -454,6 +454,67 @@ pub fn worker(w: &mut Worker) {
         }
     }
 
+    // Phase D2: many different documented lines parsed one after the other on one thread, in growing
+    // windows (each window twice) and backwards alternating with the first: a line parses to its own
+    // instruction however many other lines were parsed since it was last seen
+    for &count in &w.tier.pick(vec![5usize, 18, 70, 300], vec![5usize, 18, 70, 300, 1100]) {
+        if !w.take() {
+            continue;
+        }
+        let cj = json!({"kind": "many-lines", "count": count});
+        w.begin(|| cj.clone());
+        let lines: Vec<(String, PI)> = (0..count)
+            .map(|k| {
+                let i = Instr {
+                    label: if k % 3 == 0 { Some(format!(":label{}", k)) } else { None },
+                    output: if k % 2 == 0 { Some(format!("out{}", k)) } else { None },
+                    command: Some(format!("ns::command_number_{}", k)),
+                    args: vec![format!("argument {}", k), format!("plain{}", k), if k % 5 == 0 { String::new() } else { format!("#{}=\"", k) }],
+                };
+                (render::render(&i, &render::PLAIN), expected(&i))
+            })
+            .collect();
+        let mut problem: Option<String> = None;
+        let mut parses = 0u64;
+        let mut one = |k: usize, parses: &mut u64| -> Option<String> {
+            *parses += 1;
+            match guarded(|| parser::parse_text(&lines[k].0)) {
+                Err(p) => Some(format!("parse {} (line {}): panic {}", parses, k, p)),
+                Ok(Err(e)) => Some(format!("parse {} (line {} {:?}): rejected: {}", parses, k, lines[k].0, e)),
+                Ok(Ok(v)) => {
+                    if v.len() != 1 || plain(&v[0]) != lines[k].1 {
+                        Some(format!("parse {} (line {} {:?}): parsed to {:?}", parses, k, lines[k].0, v.iter().map(|i| pi_json(&plain(i))).collect::<Vec<_>>()))
+                    } else {
+                        None
+                    }
+                }
+            }
+        };
+        'hist: for win in 1..=count {
+            for _pass in 0..2 {
+                for k in 0..win {
+                    if let Some(p) = one(k, &mut parses) {
+                        problem = Some(p);
+                        break 'hist;
+                    }
+                }
+            }
+        }
+        if problem.is_none() {
+            for k in (0..count).rev() {
+                if let Some(p) = one(k, &mut parses).or_else(|| one(0, &mut parses)) {
+                    problem = Some(p);
+                    break;
+                }
+            }
+        }
+        w.add_transitions(parses);
+        match problem {
+            None => w.pass(true, hash64(&("many-lines", count))),
+            Some(p) => w.fail("many-lines:differs", &format!("{} different lines: {}", count, p), cj),
+        }
+    }
+
     // Phase E: the same for files: a file of documented lines parses to its instructions (each with its
     // line number and the file as source) whatever happened on this thread before - in particular after
     // parse_file of this very path failed because the file was missing, was a directory, was not text,
@@ -575,6 +636,9 @@ pub fn replay(case: &Value) -> Result<String, String> {
     if case["kind"].as_str() == Some("file-after-failed-read") {
         return Ok("re-run the check: the case needs the files of the run's scratch directory (a failed parse_file followed by a parse_file of the same path on one thread)".to_string());
     }
+    if case["kind"].as_str() == Some("many-lines") {
+        return Ok("re-run the check: the history is rebuilt from the number of lines by the generator".to_string());
+    }
     let text = case["text"].as_str().ok_or("no text")?.to_string();
     if let Some(rejected) = case["rejected"].as_str() {
         // the same thread parses the rejected text first
@@ -592,7 +656,7 @@ pub fn crash_sig(_case: &Value, kind: &str) -> String {
     kind.to_string()
 }
 
-pub const RULE: &str = "enumeration (no duplicates by construction): A) every instruction shape (label x output x command, 64, names with dots, '::', '-', '_', digits and non-ASCII letters) x every rendering style (quote-when-optional, 1|3 separator spaces, 3 leads, 6 trails incl. comments, 4 '=' spacings) x 17 argument lists (up to 8 arguments); B) every argument string up to the length bound over the 16-character alphabet {a n SP \" \\ # = : $ { % TAB LF CR NBSP e-acute}; a TAB inside an argument is written both as \\t and raw, as 1, 2 and 3 arguments, and (strings up to length 3, thorough 4) as the first, middle or last of 4, 6 and 9 arguments, x 3 shapes x 16 styles; D) every line of that pool parsed right after each of six rejected texts on the same thread (what a failed parse leaves behind must not reach the next one); C) every script of up to n lines from a pool of 12 lines x LF/CRLF x final line break. Oracle: parse_text(render(i)) == i. A case is non-trivial when a label or output is present or an argument needs quoting or escaping; states = distinct outcome classes (shape, argument count, character classes per argument), transitions = parse_text calls Phase B3: 413 single characters (printable ASCII, upper Latin-1, every Unicode white-space character, the characters of eight other planes that share the low byte of a syntax character) x ten argument positions (alone, leading, trailing, inside, next to a blank, doubled, between plain arguments) x 3 line shapes x 6 styles, and inside command, label and output names. Phase E: a file of documented lines (12 lines) parsed with parse_file right after parse_file of the same path failed on this thread (missing, a directory, not text, includes a missing file, malformed) or after nothing: n lines give n instructions with their line numbers and the file as source";
+pub const RULE: &str = "enumeration (no duplicates by construction): A) every instruction shape (label x output x command, 64, names with dots, '::', '-', '_', digits and non-ASCII letters) x every rendering style (quote-when-optional, 1|3 separator spaces, 3 leads, 6 trails incl. comments, 4 '=' spacings) x 17 argument lists (up to 8 arguments); B) every argument string up to the length bound over the 16-character alphabet {a n SP \" \\ # = : $ { % TAB LF CR NBSP e-acute}; a TAB inside an argument is written both as \\t and raw, as 1, 2 and 3 arguments, and (strings up to length 3, thorough 4) as the first, middle or last of 4, 6 and 9 arguments, x 3 shapes x 16 styles; D) every line of that pool parsed right after each of six rejected texts on the same thread (what a failed parse leaves behind must not reach the next one); D2) 5..300 (thorough 1100) different documented lines parsed one after the other on one thread in growing windows (each twice) and backwards alternating with the first: each parse gives the line's own instruction; C) every script of up to n lines from a pool of 12 lines x LF/CRLF x final line break. Oracle: parse_text(render(i)) == i. A case is non-trivial when a label or output is present or an argument needs quoting or escaping; states = distinct outcome classes (shape, argument count, character classes per argument), transitions = parse_text calls Phase B3: 413 single characters (printable ASCII, upper Latin-1, every Unicode white-space character, the characters of eight other planes that share the low byte of a syntax character) x ten argument positions (alone, leading, trailing, inside, next to a blank, doubled, between plain arguments) x 3 line shapes x 6 styles, and inside command, label and output names. Phase E: a file of documented lines (12 lines) parsed with parse_file right after parse_file of the same path failed on this thread (missing, a directory, not text, includes a missing file, malformed) or after nothing: n lines give n instructions with their line numbers and the file as source";
 pub const ASSUMPTIONS: &[&str] = &["characters outside the alphabet behave like 'a' or 'e-acute' (the scanner has no other special characters)", "names are restricted to the listed labels/outputs/commands"];
 pub const EXHAUSTIVE: bool = true;
 pub const WALL_CAP_S: (u64, u64) = (50, 1500);
